@@ -4,6 +4,8 @@ package c09
 import (
 	"bytes"
 	"compress/flate"
+	"compress/gzip"
+	"compress/zlib"
 	"context"
 	"encoding/base64"
 	"encoding/xml"
@@ -54,6 +56,89 @@ var editValues = []string{"", "urn:oasis:names:tc:SAML:2.0:cm:sender-vouches", "
 	"1.1", "2.0", "x", "not-a-time", "2030-01-01T00:00:00Z", "0001-01-01T00:00:00Z", "-1", "0", "99999999999999999999", "true", "urn:oasis:names:tc:SAML:2.0:status:Responder", "urn:oasis:names:tc:SAML:1.1:nameid-format:emailAddress"}
 
 // Case is a tagged union over the input classes of C09.
+// SigOp is one post-signing edit of a signature part.
+type SigOp struct {
+	I    int    `json:"i"`
+	Mode string `json:"mode"` // remove | empty | blank | dup | text:<replacement>
+}
+
+var sigModes = []string{"remove", "empty", "blank", "dup", "text:AAAA", "text:!!", "text:urn:unknown"}
+
+// sigParts lists the parts of every ds:Signature subtree of root in document order.
+func sigParts(root *etree.Element) []part {
+	var out []part
+	var walk func(e *etree.Element, in bool)
+	walk = func(e *etree.Element, in bool) {
+		in = in || e.Tag == "Signature"
+		if in {
+			out = append(out, part{el: e})
+			for _, a := range e.Attr {
+				if !strings.HasPrefix(a.FullKey(), "xmlns") {
+					out = append(out, part{el: e, attr: a.FullKey()})
+				}
+			}
+		}
+		for _, ch := range e.ChildElements() {
+			walk(ch, in)
+		}
+	}
+	walk(root, false)
+	return out
+}
+
+// applySigOps edits the serialised document; returns the edited bytes and a description.
+func applySigOps(docBytes []byte, ops []SigOp) ([]byte, []string) {
+	doc := etree.NewDocument()
+	if err := doc.ReadFromBytes(docBytes); err != nil || doc.Root() == nil {
+		return docBytes, nil
+	}
+	var log []string
+	for _, op := range ops {
+		ps := sigParts(doc.Root())
+		if len(ps) == 0 {
+			break
+		}
+		p := ps[((op.I%len(ps))+len(ps))%len(ps)]
+		log = append(log, fmt.Sprintf("signature part %s: %s", p.String(), op.Mode))
+		switch {
+		case op.Mode == "remove":
+			if p.attr != "" {
+				p.el.RemoveAttr(p.attr)
+			} else if par := p.el.Parent(); par != nil {
+				par.RemoveChild(p.el)
+			}
+		case op.Mode == "dup":
+			if p.attr == "" {
+				if par := p.el.Parent(); par != nil {
+					par.InsertChildAt(p.el.Index()+1, p.el.Copy())
+				}
+			}
+		default:
+			v := ""
+			if op.Mode == "blank" {
+				v = " \n\t "
+			} else if strings.HasPrefix(op.Mode, "text:") {
+				v = op.Mode[5:]
+			}
+			if p.attr != "" {
+				p.el.CreateAttr(p.attr, v)
+			} else {
+				for _, ch := range append([]etree.Token{}, p.el.Child...) {
+					p.el.RemoveChild(ch)
+				}
+				if v != "" {
+					p.el.SetText(v)
+				}
+			}
+		}
+	}
+	out, err := doc.WriteToBytes()
+	if err != nil {
+		return docBytes, nil
+	}
+	return out, log
+}
+
 type Case struct {
 	Kind string `json:"kind"` // resign | encplain | bytes | fixture | artifact | idp | metadata
 
@@ -64,6 +149,13 @@ type Case struct {
 	Removals    []int  `json:"removals,omitempty"`
 	ArtRemovals []int  `json:"art_removals,omitempty"`
 	Edits       []Edit `json:"edits,omitempty"` // attribute values replaced (before signing) by schema-valid alternatives
+	// SigOps: surgery on the ds:Signature elements AFTER signing (a sender needs no key for it): the
+	// I-th part (element or attribute, document order over all Signature subtrees) is removed, emptied,
+	// blanked or duplicated.  The message is usually no longer valid - it must still be refused cleanly.
+	SigOps []SigOp `json:"sig_ops,omitempty"`
+
+	// Trust: the SP's trust configuration (one of spkit.Trusts; "" = meta1), every kind that drives an SP
+	Trust string `json:"trust,omitempty"`
 
 	// encplain: arbitrary plaintext inside a well-formed EncryptedAssertion addressed to the SP
 	Plain     string `json:"plain,omitempty"`
@@ -79,6 +171,9 @@ type Case struct {
 	Framing string `json:"framing,omitempty"` // raw | b64 | deflate-b64 | bad-b64 | trunc-deflate | stored | bomb
 	API     string `json:"api,omitempty"`     // response | artifact | logout-form | logout-redirect | logout-request | authn-get | authn-post | metadata | unmarshal-entity | unmarshal-entities | put-service
 	BombMiB int    `json:"bomb_mib,omitempty"`
+	// Container: what wraps the DEFLATE stream of the deflating framings: "" (raw, RFC 1951, what the
+	// binding specifies) | zlib (RFC 1950) | gzip (RFC 1952) - the containers other stacks emit by mistake
+	Container string `json:"container,omitempty"`
 
 	// fixture: a repository fixture, mutated
 	Fixture string  `json:"fixture,omitempty"`
@@ -159,8 +254,28 @@ func deflate(b []byte, level int) []byte {
 	return buf.Bytes()
 }
 
+// deflateIn compresses b into the given container ("" = raw DEFLATE).
+func deflateIn(container string, b []byte, level int) []byte {
+	var buf bytes.Buffer
+	var w io.WriteCloser
+	switch container {
+	case "zlib":
+		w, _ = zlib.NewWriterLevel(&buf, level)
+	case "gzip":
+		w, _ = gzip.NewWriterLevel(&buf, level)
+	default:
+		return deflate(b, level)
+	}
+	_, _ = w.Write(b)
+	_ = w.Close()
+	return buf.Bytes()
+}
+
+// curTrust is the trust configuration of the case being judged (cases are judged one at a time).
+var curTrust = "meta1"
+
 func newSP() *saml.ServiceProvider {
-	return spkit.NewSP(spkit.Config{Trust: "meta1"})
+	return spkit.NewSP(spkit.Config{Trust: curTrust})
 }
 
 type discard struct{}
@@ -206,6 +321,11 @@ func checkResign(c Case) pbt.Result {
 		return pbt.Result{Skip: true}
 	}
 	removed = append(removed, artRemoved...)
+	if len(c.SigOps) > 0 {
+		var log []string
+		doc, log = applySigOps(doc, c.SigOps)
+		removed = append(removed, log...)
+	}
 	sp := newSP()
 	var o spkit.Outcome
 	switch c.Entry {
@@ -219,6 +339,9 @@ func checkResign(c Case) pbt.Result {
 	res := pbt.Result{NonTrivial: true, Classes: []string{"resign", "resign:layout:" + c.Layout, "resign:entry:" + c.Entry, fmt.Sprintf("resign:removed:%d", len(removed))}}
 	if c.Encrypt {
 		res.Classes = append(res.Classes, "resign:encrypted")
+	}
+	if len(c.SigOps) > 0 {
+		res.Classes = append(res.Classes, "resign:signature-surgery")
 	}
 	if o.Accepted() {
 		res.Classes = append(res.Classes, "resign:accepted")
@@ -342,6 +465,9 @@ func feed(api string, payload []byte, framing string) callResult {
 			ar, err := saml.NewIdpAuthnRequest(idp, req)
 			if err != nil {
 				return "", err
+			}
+			if n := len(ar.RequestBuffer); n > 10<<20+1<<16 {
+				return fmt.Sprintf("NewIdpAuthnRequest returned a request holding %d inflated bytes (> 10 MiB)", n), nil
 			}
 			if err := ar.Validate(); err != nil {
 				return "", err
@@ -550,7 +676,7 @@ func frame(c Case) (payload []byte, inflated int, ok bool) {
 	case "bad-b64":
 		return append([]byte(base64.StdEncoding.EncodeToString(c.Data)), '!', '*'), 0, true
 	case "deflate-b64":
-		return []byte(base64.StdEncoding.EncodeToString(deflate(c.Data, 9))), len(c.Data), true
+		return []byte(base64.StdEncoding.EncodeToString(deflateIn(c.Container, c.Data, 9))), len(c.Data), true
 	case "stored":
 		return []byte(base64.StdEncoding.EncodeToString(deflate(c.Data, 0))), len(c.Data), true
 	case "trunc-deflate":
@@ -569,7 +695,7 @@ func frame(c Case) (payload []byte, inflated int, ok bool) {
 		// flat text content: the round-trip validator the library calls first costs ~15 KB of
 		// (cumulative) allocation per element, so element-dense bombs only measure that dependency
 		body := append(append([]byte("<a>"), bytes.Repeat([]byte("A"), n)...), []byte("</a>")...)
-		return []byte(base64.StdEncoding.EncodeToString(deflate(body, 9))), n, true
+		return []byte(base64.StdEncoding.EncodeToString(deflateIn(c.Container, body, 9))), n, true
 	}
 	return nil, 0, false
 }
@@ -578,7 +704,7 @@ func frame(c Case) (payload []byte, inflated int, ok bool) {
 // fresh LogoutResponse or a valid AuthnRequest - carrying a comment that inflates it to
 // mib MiB: comments are outside the canonical form, so only the inflate limit stands
 // between this input and acceptance.
-func validBomb(api string, mib int) ([]byte, int, bool) {
+func validBomb(api string, mib int, container string) ([]byte, int, bool) {
 	pad := strings.Repeat("A", mib<<20)
 	var el *etree.Element
 	switch api {
@@ -598,19 +724,22 @@ func validBomb(api string, mib int) ([]byte, int, bool) {
 	}
 	el.CreateComment(pad)
 	raw := forge.Bytes(el)
-	return []byte(base64.StdEncoding.EncodeToString(deflate(raw, 9))), len(raw), true
+	return []byte(base64.StdEncoding.EncodeToString(deflateIn(container, raw, 9))), len(raw), true
 }
 
 func checkBytes(c Case) pbt.Result {
 	payload, inflated, ok := frame(c)
 	if ok && c.Framing == "valid-bomb" {
-		payload, inflated, ok = validBomb(c.API, c.BombMiB)
+		payload, inflated, ok = validBomb(c.API, c.BombMiB, c.Container)
 	}
 	if !ok {
 		return pbt.Result{Skip: true}
 	}
 	usesDeflate := c.API == "logout-redirect" || c.API == "logout-request" || c.API == "authn-get"
 	res := pbt.Result{Classes: []string{"bytes", "bytes:" + c.API, "framing:" + c.Framing}}
+	if c.Container != "" {
+		res.Classes = append(res.Classes, "container:"+c.Container)
+	}
 	r := feed(c.API, payload, c.Framing)
 	// non-trivial: the input got past the first guard (decoded and well-formed enough to be parsed as XML)
 	res.NonTrivial = r.err == nil || !strings.Contains(strings.ToLower(fmt.Sprint(privateOf(r.err))), "base64")
@@ -624,7 +753,7 @@ func checkBytes(c Case) pbt.Result {
 	}
 	if c.Framing == "valid-bomb" {
 		res.Classes = append(res.Classes, fmt.Sprintf("valid-bomb:%dMiB", c.BombMiB))
-		if c.BombMiB <= 8 && r.err != nil {
+		if c.BombMiB <= 8 && r.err != nil && c.Container == "" {
 			res.Err = fmt.Sprintf("harness sanity: %s refused an otherwise valid message inflating to %d bytes (below the 10 MiB limit): %v", c.API, inflated, privateOf(r.err))
 			return res
 		}
@@ -992,7 +1121,22 @@ func check(c Case) pbt.Result {
 		kindTime[k] += time.Since(t0)
 		kindCount[k]++
 	}()
-	return check1(c)
+	curTrust = "meta1"
+	if c.Trust != "" {
+		ok := false
+		for _, t := range spkit.Trusts {
+			ok = ok || t == c.Trust
+		}
+		if !ok {
+			return pbt.Result{Skip: true}
+		}
+		curTrust = c.Trust
+	}
+	res := check1(c)
+	if c.Trust != "" && !res.Skip {
+		res.Classes = append(res.Classes, "sp-trust:"+c.Trust)
+	}
+	return res
 }
 
 func check1(c Case) pbt.Result {
@@ -1130,6 +1274,13 @@ func gen(t *rapid.T) Case {
 	return c
 }
 
+func genTrust(t *rapid.T) string {
+	if rapid.Bool().Draw(t, "defaulttrust") {
+		return ""
+	}
+	return rapid.SampledFrom(spkit.Trusts).Draw(t, "trust")
+}
+
 func gen1(t *rapid.T) Case {
 	switch rapid.IntRange(0, 13).Draw(t, "kind") {
 	case 0, 1, 2, 3:
@@ -1146,13 +1297,17 @@ func gen1(t *rapid.T) Case {
 		if entry == "artifact" {
 			c.ArtRemovals = genRemovals(t, "artrm", 12)
 		}
+		for i := rapid.SampledFrom([]int{0, 0, 0, 1, 1, 2, 3}).Draw(t, "nsigops"); i > 0; i-- {
+			c.SigOps = append(c.SigOps, SigOp{I: rapid.IntRange(0, 80).Draw(t, "sigi"), Mode: rapid.SampledFrom(sigModes).Draw(t, "sigmode")})
+		}
+		c.Trust = genTrust(t)
 		return c
 	case 4:
 		plain := rapid.SampledFrom(degeneratePlain).Draw(t, "plain")
 		if rapid.IntRange(0, 2).Draw(t, "randplain") == 0 {
 			plain = string(genBytes(t))
 		}
-		c := Case{Kind: "encplain", Plain: plain, RespSign: rapid.Bool().Draw(t, "respsign"), EncLayout: rapid.SampledFrom([]string{"", "sibling"}).Draw(t, "enclayout")}
+		c := Case{Kind: "encplain", Plain: plain, RespSign: rapid.Bool().Draw(t, "respsign"), EncLayout: rapid.SampledFrom([]string{"", "sibling"}).Draw(t, "enclayout"), Trust: genTrust(t)}
 		if rapid.Bool().Draw(t, "algs") {
 			c.DigestAlg = rapid.SampledFrom(algIDs).Draw(t, "digestalg")
 			c.KeyAlg = rapid.SampledFrom(algIDs).Draw(t, "keyalg")
@@ -1160,7 +1315,7 @@ func gen1(t *rapid.T) Case {
 		}
 		return c
 	case 5, 6, 7:
-		c := Case{Kind: "bytes", Data: genBytes(t), API: rapid.SampledFrom(apis).Draw(t, "api")}
+		c := Case{Kind: "bytes", Data: genBytes(t), API: rapid.SampledFrom(apis).Draw(t, "api"), Trust: genTrust(t)}
 		c.Framing = rapid.SampledFrom([]string{"raw", "b64", "b64", "deflate-b64", "deflate-b64", "bad-b64", "trunc-deflate", "stored"}).Draw(t, "framing")
 		if rapid.IntRange(0, 40).Draw(t, "bomb") == 0 {
 			c.Framing = "bomb"
@@ -1172,12 +1327,15 @@ func gen1(t *rapid.T) Case {
 				c.BombMiB = rapid.SampledFrom([]int{1, 8, 11, 12, 24}).Draw(t, "vmib")
 			}
 		}
+		if c.Framing == "deflate-b64" || c.Framing == "bomb" || c.Framing == "valid-bomb" {
+			c.Container = rapid.SampledFrom([]string{"", "", "", "zlib", "gzip"}).Draw(t, "container")
+		}
 		return c
 	case 8, 9:
 		name := rapid.SampledFrom(fixtureNames).Draw(t, "fixture")
 		return Case{Kind: "fixture", Fixture: name, API: rapid.SampledFrom(fixtureAPIs[name]).Draw(t, "api"), Ops: genMutOps(t)}
 	case 10:
-		return Case{Kind: "artifact", Faults: rapid.SliceOfN(rapid.SampledFrom(faults), 1, 5).Draw(t, "faults")}
+		return Case{Kind: "artifact", Faults: rapid.SliceOfN(rapid.SampledFrom(faults), 1, 5).Draw(t, "faults"), Trust: genTrust(t)}
 	case 11, 12:
 		return Case{Kind: "idp", Method: rapid.SampledFrom([]string{"GET", "POST", "initiated"}).Draw(t, "method"), NoSession: rapid.IntRange(0, 4).Draw(t, "nosess") == 0,
 			ReqRemovals: genRemovals(t, "reqrm", nParts.req), MetaRemovals: genRemovals(t, "metarm", nParts.spmeta)}
@@ -1196,6 +1354,33 @@ func gen1(t *rapid.T) Case {
 }
 
 // ---------------------------------------------------------------- exhaustive parts
+
+// enumSigSurgery: every part of the signature of a signed Response / Assertion / ArtifactResponse x every
+// edit mode, under a metadata, a pinned and a fingerprint trust configuration.
+func enumSigSurgery(tier string, emit func(Case)) {
+	trusts := []string{"meta1", "pinned", "fp256"}
+	if tier == "thorough" {
+		trusts = spkit.Trusts
+	}
+	for _, trust := range trusts {
+		for _, le := range [][2]string{{"resp", "xml"}, {"assert", "xml"}, {"assert", "post"}, {"artifact", "artifact"}} {
+			doc, _, ok := signAndWrap(maximalResponse(), le[0], false, le[1] == "artifact", nil)
+			if !ok {
+				continue
+			}
+			d := etree.NewDocument()
+			if d.ReadFromBytes(doc) != nil {
+				continue
+			}
+			n := len(sigParts(d.Root()))
+			for i := 0; i < n; i++ {
+				for _, m := range sigModes {
+					emit(Case{Kind: "resign", Layout: le[0], Entry: le[1], Trust: trust, SigOps: []SigOp{{I: i, Mode: m}}})
+				}
+			}
+		}
+	}
+}
 
 // enumRemovals: every subset of size <= 2 of the removable parts of the maximal
 // response, re-signed in each layout; encrypted and artifact variants for size <= 1.
@@ -1319,6 +1504,12 @@ func enumDegenerate(_ string, emit func(Case)) {
 		for _, mib := range []int{1, 8, 11, 12, 24} {
 			emit(Case{Kind: "bytes", API: api, Framing: "valid-bomb", BombMiB: mib})
 		}
+		for _, container := range []string{"zlib", "gzip"} {
+			for _, mib := range []int{1, 11, 32} {
+				emit(Case{Kind: "bytes", API: api, Framing: "bomb", BombMiB: mib, Container: container})
+				emit(Case{Kind: "bytes", API: api, Framing: "valid-bomb", BombMiB: mib, Container: container})
+			}
+		}
 	}
 	for _, name := range fixtureNames {
 		for _, api := range fixtureAPIs[name] {
@@ -1329,17 +1520,18 @@ func enumDegenerate(_ string, emit func(Case)) {
 
 var prop = &pbt.Prop[Case]{
 	ID: "C09",
-	Rule: "cases: (resign) a maximal valid Response with every optional element/attribute, any subset of its parts removed (every subset of size <= 2 enumerated), then validly re-signed with the trusted IdP key in each layout (Response / Assertion / both / ArtifactResponse), optionally encrypted to the SP, through ParseXMLResponse / ParseResponse(POST) / ParseXMLArtifactResponse; " +
-		"(encplain) degenerate and random plaintexts inside a well-formed EncryptedAssertion addressed to the SP; (bytes) random, dictionary-built and fixture-spliced bytes under raw / base64 / deflate / broken framings incl. deflate bombs of 1..64 MiB through every consuming API " +
+	Rule: "cases: (resign) a maximal valid Response with every optional element/attribute, any subset of its parts removed (every subset of size <= 2 enumerated), then validly re-signed with the trusted IdP key in each layout (Response / Assertion / both / ArtifactResponse), optionally encrypted to the SP, through ParseXMLResponse / ParseResponse(POST) / ParseXMLArtifactResponse, followed by 0-3 edits of the parts of the ds:Signature elements after signing (remove / empty / blank / duplicate / replace text; every part x every mode enumerated) under every trust configuration of the SP (metadata, pinned certificate, fingerprint); " +
+		"(encplain) degenerate and random plaintexts inside a well-formed EncryptedAssertion addressed to the SP; (bytes) random, dictionary-built and fixture-spliced bytes under raw / base64 / deflate / broken framings incl. deflate bombs of 1..64 MiB (raw DEFLATE and the zlib / gzip containers) through every consuming API " +
 		"(response, artifact response, logout form/redirect/request, AuthnRequest GET/POST + Validate, samlsp.ParseMetadata, xml.Unmarshal of EntityDescriptor/EntitiesDescriptor, PUT /services/{id} of samlidp); (fixture) repository fixtures under structure-aware mutation (delete / duplicate / swap / wrap / attribute edits / depth <= 500 / width <= 5000 / root rename); " +
 		"(artifact) generated sequences of resolver behaviours (dial error, non-200, truncated body, SOAP fault, wrong envelope, garbage ...); (idp) a maximal AuthnRequest and maximal registered SP metadata with parts removed through ServeSSO GET/POST and ServeIDPInitiated; (metadata) maximal IdP/SP metadata with parts removed. " +
-		"oracle: no panic; response family: err != nil iff assertion == nil, error is *InvalidResponseError with Error() == \"Authentication failed\"; deflated input > 10 MiB is refused; cumulative allocation (TotalAlloc delta) per call below 32 MiB + 8000 x (input + inflated) bytes, i.e. linear with 4x headroom over the ~1900 bytes/byte the round-trip validator needs on element-dense input. " +
+		"oracle: no panic; response family: err != nil iff assertion == nil, error is *InvalidResponseError with Error() == \"Authentication failed\"; deflated input > 10 MiB is refused (and NewIdpAuthnRequest returns no request holding more than that); cumulative allocation (TotalAlloc delta) per call below 32 MiB + 8000 x (input + inflated) bytes, i.e. linear with 4x headroom over the ~1900 bytes/byte the round-trip validator needs on element-dense input. " +
 		"non-trivial: the input reaches past the first parse guard (always for resign / encplain / idp / metadata / artifact; for bytes: not rejected at base64 decoding). distinct: sha256 of the JSON case.",
 	Gen:   gen,
 	Check: check,
 	Reset: fix.Reset,
 	Enums: []pbt.Enum[Case]{
 		{Name: "optional-part-removal-resigned", Each: enumRemovals},
+		{Name: "signature-surgery-after-signing", Each: enumSigSurgery},
 		{Name: "idp-request-and-metadata-part-removal", Each: enumIDP},
 		{Name: "metadata-part-removal", Each: enumMetadata},
 		{Name: "degenerate-documents-faults-bombs-fixtures", Each: enumDegenerate},
